@@ -25,11 +25,11 @@ CHECKS = {
         note=TRUST + "The CRC of the returned bytes is recomputed by the harness's own CRC-32.",
         tech="deterministic simulation: enumerated bit-rot faults on simulated storage, read under seeded short-read schedules"),
     "C05": dict(level="exploration", ref="DESIGN.md §4 C05",
-        text="Crash-truncated, torn, bit-rotted, spliced and structure-aware lying images (every prefix, every representative byte value at every structural offset, every header field x boundary value of small seeds are enumerated; random multi-site damage and arbitrary bytes are sampled) are driven through the whole reading surface (seekable reader, raw/decrypt/by-name access, all accessors, the provided methods of std::io::Read (read_to_end, read_to_string, read_exact, io::copy, bytes) where the real output is bounded by the input, streaming reader, visitor, open-for-append) in monitored worker processes; header fields are lied about one at a time and in combinations that vouch for each other (entry count + directory size, offset + size, both sizes, all variable lengths); panics (overflow checks on), aborts, step-budget overruns and heap blow-ups while opening are violations. Seeds carry the extra records real archivers write (Unicode path/comment with the CRC of the header's own name, UT, ux, NTFS, ASi, ...), well formed or claiming a length other than their body's.",
+        text="Crash-truncated, torn, bit-rotted, spliced and structure-aware lying images (every prefix, every representative byte value at every structural offset, every header field x boundary value of small seeds are enumerated; random multi-site damage and arbitrary bytes are sampled) are driven through the whole reading surface (seekable reader, raw/decrypt/by-name access, all accessors, the provided methods of std::io::Read (read_to_end, read_to_string, read_exact, io::copy, bytes) where the real output is bounded by the input, streaming reader, visitor, open-for-append) in monitored worker processes; header fields are lied about one at a time and in combinations that vouch for each other (entry count + directory size, offset + size, both sizes, all variable lengths); panics (overflow checks on), aborts, step-budget overruns and heap blow-ups while opening are violations. Seeds carry the extra records real archivers write (Unicode path/comment with the CRC of the header's own name, UT, ux, NTFS, ASi, ...), well formed or claiming a length other than their body's. A further seed kind repeats one record signature or marker up to 300000 times in front of a small archive (work per marker: stack, steps).",
         note=TRUST + "Heap bound 1024 x len + 8 MiB by a counting allocator; step budget 4M + 16 x len I/O calls; wall-clock watchdog for loops without I/O.",
         tech="deterministic simulation: seeded + enumerated storage faults (crash points, bit rot, lying fields) with panic/abort/step/heap monitors"),
     "C07": dict(level="exploration", ref="DESIGN.md §4 C07",
-        text="Archives with hostile and benign names are extracted by both extractors from a simulated source (short reads, optional reader fault) into a fresh 16-level-deep sandbox on the real file system; the sandbox outside the target is snapshotted before/after (confinement), unsafe names must yield Err, and for safe consistent names the tree, bytes and permission bits must equal the reference tree. Names come with slashes and with backslashes, directory entries may follow their children or exist already, older files (longer, shorter, equally long) may already sit at the paths of file entries, and the target is named absolutely or by relative spellings ('../target', './target', 'x/../target', '.').",
+        text="Archives with hostile and benign names are extracted by both extractors from a simulated source (short reads, optional reader fault) into a fresh 16-level-deep sandbox on the real file system; the sandbox outside the target is snapshotted before/after (confinement), unsafe names must yield Err, and for safe consistent names the tree, bytes and permission bits must equal the reference tree. Names come with slashes and with backslashes, directory entries may follow their children or exist already, older files (longer, shorter, equally long) may already sit at the paths of file entries, and the target is named absolutely or by relative spellings ('../target', './target', 'x/../target', '.'). The central directory of built archives may list the entries in another order than they lie in the file; their 'version made by' host is drawn (DOS, Unix, others).",
         note=TRUST + "The sink is the real kernel FS on purpose (confinement is about what the kernel does with the path); even a real escape cannot leave the sandbox.",
         tech="deterministic simulation of the archive source + sandboxed real-FS snapshot oracle over a seeded hostile-name grammar"),
     "C08": dict(level="exploration", ref="DESIGN.md §4 C08",
@@ -37,7 +37,7 @@ CHECKS = {
         note=TRUST + "Huge payloads are zeros with marker bytes (sparse); compressing methods across 4 GiB and 5 GiB payloads only in the thorough tier.",
         tech="deterministic simulation on a sparse simulated disk, boundary-directed seeded search against model + independent parser"),
     "C09": dict(level="exploration", ref="DESIGN.md §4 C09",
-        text="One program / archive, many fragmentation schedules: uniform chunk 1..K, BufReader-like refills, PRNG schedules, and ONE short transfer at EVERY I/O call index (enumerated for small cases) on sink, seekable source and non-seekable stream, plus caller read buffers (zero-length included) and caller write splits; every re-execution must reproduce the unfragmented outcome (image byte-identical / decoded results equal).",
+        text="One program / archive, many fragmentation schedules: uniform chunk 1..K, BufReader-like refills, PRNG schedules, and ONE short transfer at EVERY I/O call index (enumerated for small cases) on sink, seekable source and non-seekable stream, plus caller read buffers (zero-length included) and caller write splits; every re-execution must reproduce the unfragmented outcome (image byte-identical / decoded results equal). One case in eight also writes 150-270 KB of incompressible data to a compressing entry in one piece, as a gathered write of two large slices and in 4 KiB pieces: all three must decode to the bytes written.",
         note=TRUST + "Plain, ZipCrypto (crate-written and independently encrypted) and AE-1/AE-2 entries.",
         tech="deterministic simulation: schedule exploration (the I/O fragmentation schedule is the quantified variable)"),
     "C10": dict(level="exploration", ref="DESIGN.md §4 C10",
